@@ -44,6 +44,7 @@ type sconn struct {
 	afterOp    func(i int) // called when call i completed normally
 	closed     bool
 	closeCount int
+	deadlines  []string
 	closeCh    chan struct{}
 	stalled    chan struct{} // closed when the stalling call has begun
 }
@@ -189,6 +190,63 @@ func (c *sconn) RemoteAddr() net.Addr {
 	}
 	return &net.TCPAddr{IP: net.IPv4(127, 0, 0, 1), Port: 41001}
 }
-func (c *sconn) SetDeadline(time.Time) error      { return nil }
-func (c *sconn) SetReadDeadline(time.Time) error  { return nil }
-func (c *sconn) SetWriteDeadline(time.Time) error { return nil }
+
+// Deadlines are not implemented (nothing here ever times out by itself) but every
+// request to ARM one (a non-zero time) is recorded: the library must not put a
+// deadline of its own on the caller's connection.
+func (c *sconn) arm(kind string, t time.Time) error {
+	if !t.IsZero() {
+		c.mu.Lock()
+		c.deadlines = append(c.deadlines, kind)
+		c.mu.Unlock()
+	}
+	return nil
+}
+func (c *sconn) SetDeadline(t time.Time) error      { return c.arm("SetDeadline", t) }
+func (c *sconn) SetReadDeadline(t time.Time) error  { return c.arm("SetReadDeadline", t) }
+func (c *sconn) SetWriteDeadline(t time.Time) error { return c.arm("SetWriteDeadline", t) }
+func (c *sconn) armed() []string {
+	c.mu.Lock()
+	defer c.mu.Unlock()
+	return append([]string(nil), c.deadlines...)
+}
+
+// oneShotListener hands out one prepared connection, then blocks until closed.
+type oneShotListener struct {
+	conn     net.Conn
+	once     sync.Once
+	handed   chan struct{}
+	closed   chan struct{}
+	closeOne sync.Once
+}
+
+func newOneShotListener(c net.Conn) *oneShotListener {
+	return &oneShotListener{conn: c, handed: make(chan struct{}), closed: make(chan struct{})}
+}
+func (l *oneShotListener) Accept() (net.Conn, error) {
+	select {
+	case <-l.closed:
+		return nil, net.ErrClosed
+	default:
+	}
+	first := false
+	l.once.Do(func() { first = true })
+	if first {
+		close(l.handed)
+		return l.conn, nil
+	}
+	<-l.closed
+	return nil, net.ErrClosed
+}
+func (l *oneShotListener) Close() error { l.closeOne.Do(func() { close(l.closed) }); return nil }
+func (l *oneShotListener) Addr() net.Addr {
+	return &net.TCPAddr{IP: net.IPv4(127, 0, 0, 1), Port: 9618}
+}
+func (l *oneShotListener) accepted() bool {
+	select {
+	case <-l.handed:
+		return true
+	default:
+		return false
+	}
+}
